@@ -2,12 +2,13 @@
 from contracts import lemmas as L
 from contracts import output as O
 from contracts import release as R
+from contracts import release_cont as RC
 from contracts import release_init as RI
 from contracts import roms_forcing as F
 from contracts import timekeeper as K
 
 UNITS = [K.TKInit(True), K.TKInit(False), K.TKUpdate(), K.TKStep2Time(), K.TKTime2Step(), K.TKStep2NcTime("s"), K.TKNcTime("s"),
-         F.ForcingInit(), F.Velocity(), F.ForceParticles(), F.Update("bracket"), O.OutputInitRecords(False), O.OutputUpdate(), R.ReleaseUpdate(), RI.ReleaserInit(True)]
+         F.ForcingInit(), F.Velocity(), F.ForceParticles(), F.Update("bracket"), O.OutputInitRecords(False), O.OutputUpdate(), R.ReleaseUpdate(), RI.ReleaserInit(True), RC.Discretize(), RC.ReleaserInitContinuous(True)]
 LEMMAS = [L.MirrorClock(), L.NoDirectionDependence()]
 NATIVE = [dict(name="reversed run vs forward run over the mirrored time axis in the sign-flipped flow (real Model)", harness="mirror_bounded", kind="bounded")]
 LEVEL = "proof"
@@ -16,7 +17,7 @@ LEVEL_TEXT = ("Mirror lemmas proved per function for both directions: the clock 
               "frame bracket/interpolation invariant is direction independent (sorted steps), Output stores a negative period and the same record count, the releaser consumes groups in "
               "step order; tracker, state and sampling code contain no reference to the direction. The record-for-record equality of the two runs is the composition of these lemmas (argued) "
               "and is checked by a bounded native sweep.")
-LEVEL_NOTE = "the induction over steps composing the mirror lemmas into equality of two whole runs is written out in DESIGN.md, not mechanised; Forcing.__init__/forcing_steps and the release pipeline: bounded"
+LEVEL_NOTE = "the induction over steps composing the mirror lemmas into equality of two whole runs is written out in DESIGN.md, not mechanised; whole-run equality: bounded"
 TECHNIQUE = "contract-based deductive verification (per-function mirror lemmas, both directions as symbolic Boolean) + bounded two-run comparison"
 EXPLANATION = "Direction-dependent functions proved against mirrored specifications; whole-run equality bounded."
 ASSUMPTIONS = ["frames and release times on the model time grid"]
